@@ -30,3 +30,133 @@ Proof.
   exists (mkGC [] [] 3 None 1), [FCurrent; FManifest 1; FManifest 2; FWal 3], (FManifest 2).
   split; [vm_compute; tauto | cbn; discriminate].
 Qed.
+
+(** ** version list: reference counts balance on every well-formed run
+
+    [wf_events evs]: checked along the run from [vs_init], every [VInstall] uses an id greater
+    than every id used so far, every [VHold] names a currently linked version, every [VDrop]
+    matches an outstanding hold ([holds_of]: the multiset of holds not yet dropped). *)
+
+(** the boolean check is the pointwise condition on every prefix *)
+Theorem C11_wf_events_iff : forall evs,
+  wf_events evs = true <->
+  (forall pre e post, evs = pre ++ e :: post -> ev_ok (vs_run pre) (gh_run pre) e = true).
+Proof. exact wf_events_iff. Qed.
+Print Assumptions C11_wf_events_iff.
+
+(** T1: reference counts are exact: one for the current pointer plus one per outstanding hold;
+    every linked version has a holder; linked ids are unique; the current version is linked *)
+Theorem C11_refs_exact : forall evs, wf_events evs = true ->
+  let s := vs_run evs in
+  (forall v, In v (vs_nodes s) ->
+     vn_refs v = ((if vn_id v =? vs_current s then 1 else 0) + countN (vn_id v) (holds_of evs))%nat
+     /\ (vn_refs v >= 1)%nat)
+  /\ NoDup (map vn_id (vs_nodes s))
+  /\ In (vs_current s) (map vn_id (vs_nodes s)).
+Proof. exact refs_exact. Qed.
+Print Assumptions C11_refs_exact.
+
+(** T2: a version stays linked exactly while the current pointer or an outstanding hold owns it *)
+Theorem C11_linked_iff_held : forall evs i, wf_events evs = true ->
+  (In i (map vn_id (vs_nodes (vs_run evs))) <->
+   i = vs_current (vs_run evs) \/ In i (holds_of evs)).
+Proof. exact linked_iff_held. Qed.
+Print Assumptions C11_linked_iff_held.
+
+(** the files a held version was installed with are live ... *)
+Theorem C11_held_files_live : forall evs i f, wf_events evs = true ->
+  i = vs_current (vs_run evs) \/ In i (holds_of evs) ->
+  In f (installed_files evs i) -> In f (vs_live_files (vs_run evs)).
+Proof. exact held_files_live. Qed.
+Print Assumptions C11_held_files_live.
+
+(** ... so with [g_live] taken from the version list, [remove_obsolete_files] keeps everything
+    needed (the side condition of [C11_never_deletes_needed] holds by construction) and never
+    selects a table of a version that a reader, iterator or compaction still holds *)
+Theorem C11_run_never_deletes_needed : forall evs g f, wf_events evs = true ->
+  g_live g = vs_live_files (vs_run evs) ->
+  needed g (installed_files evs (vs_current (vs_run evs))) f -> keep g f = true.
+Proof. exact run_never_deletes_needed. Qed.
+Print Assumptions C11_run_never_deletes_needed.
+
+Theorem C11_held_files_kept : forall evs g i n listing, wf_events evs = true ->
+  g_live g = vs_live_files (vs_run evs) ->
+  i = vs_current (vs_run evs) \/ In i (holds_of evs) ->
+  In n (installed_files evs i) ->
+  keep g (FTable n) = true /\ (In (FTable n) listing -> In (FTable n) (gc g listing)).
+Proof. exact held_files_kept. Qed.
+Print Assumptions C11_held_files_kept.
+
+(** T3: with no outstanding holds nothing dead is kept: the list is exactly the current version,
+    carrying the files of the last install ([[]] before the first) *)
+Theorem C11_no_holds_exact : forall evs, wf_events evs = true -> holds_of evs = [] ->
+  let s := vs_run evs in
+  vs_nodes s = [mkVN (vs_current s) 1 (last_files evs)] /\ vs_live_files s = last_files evs.
+Proof. exact no_holds_exact. Qed.
+Print Assumptions C11_no_holds_exact.
+
+Theorem C11_no_holds_balanced : forall evs, wf_events evs = true -> holds_of evs = [] ->
+  balanced_b (vs_run evs) = true.
+Proof. exact no_holds_balanced. Qed.
+Print Assumptions C11_no_holds_balanced.
+
+(** T4 (defect D8, the trivial-move path held its input version and never released it): a hold
+    that is never dropped keeps the version linked and its files live for the rest of the run *)
+Theorem C11_unmatched_hold_stays_linked : forall evs1 evs2 i,
+  wf_events (evs1 ++ evs2) = true ->
+  In i (holds_of evs1) -> ~ In (VDrop i) evs2 ->
+  In i (map vn_id (vs_nodes (vs_run (evs1 ++ evs2)))) /\
+  (forall f, In f (installed_files evs1 i) -> In f (vs_live_files (vs_run (evs1 ++ evs2)))).
+Proof. exact unmatched_hold_stays_linked. Qed.
+Print Assumptions C11_unmatched_hold_stays_linked.
+
+(** the D8 scenario, one id up because the initial version is id 0 with no files: version 1
+    (file 5) is held and never released; after two more installs file 5 is still live *)
+Example C11_leak_D8 :
+  let evs := [VInstall 1 [5]; VHold 1; VInstall 2 [6]; VInstall 3 [7]] in
+  wf_events evs = true /\ In 5 (vs_live_files (vs_run evs)) /\ vs_live_files (vs_run evs) = [5; 7].
+Proof. vm_compute. auto. Qed.
+
+(** with the hold released (the repair) only the current version's file stays *)
+Example C11_leak_D8_repaired :
+  let evs := [VInstall 1 [5]; VHold 1; VInstall 2 [6]; VDrop 1; VInstall 3 [7]] in
+  wf_events evs = true /\ vs_live_files (vs_run evs) = [7].
+Proof. vm_compute. auto. Qed.
+
+(** the hypotheses are satisfiable on an interleaved run *)
+Example C11_wf_satisfiable :
+  wf_events sample_run = true /\ holds_of sample_run = []
+  /\ vs_run sample_run = mkVS [mkVN 9 1 [7; 10]] 9
+  /\ holds_of (firstn 10 sample_run) = [4; 2; 1]
+  /\ vs_nodes (vs_run (firstn 10 sample_run)) = [mkVN 1 1 [5]; mkVN 2 1 [6]; mkVN 4 2 [7; 8]].
+Proof. vm_compute. repeat split. Qed.
+
+
+(** * Garbage collection inside the persistence protocol ([Proto.do_gc]): nothing recovery needs is
+    removed, at any prefix of the removals *)
+From Coq Require Import List NArith Bool Arith.
+From RainVerif Require Import Params.
+From RainVerif.model Require Import Bytes Key Block Crc Log Table TableSpec Version Lsm DbSpec Codec WalModel Recover Proto.
+From RainVerif.proofs Require Import ContentsProofs ProtoDurable ProtoSteps ProtoOpen ProtoInstall ProtoProofs.
+Import ListNotations.
+(** * M6 (C11): garbage collection *)
+
+Theorem C11_gc_removed_not_needed : forall d acked f,
+  InvE d acked -> In (FsRemove f) (gc_ops d) ->
+  exists rc, recover_image (pd_img d) = inl rc /\
+    match f with
+    | FManifest n => n <> ms_number (rc_manifest rc)
+    | FTable n => ~ In n (version_numbers (ms_version (rc_manifest rc)))
+    | FWal n => forall w, In w (rc_wals rc) -> wr_number w <> n
+    | FTemp _ => True
+    | FCurrent => False
+    | FLock => True
+    end.
+Proof. exact gc_removed_not_needed. Qed.
+Print Assumptions C11_gc_removed_not_needed.
+
+Theorem C11_gc_preserves_recovery : forall d acked,
+  InvE d acked ->
+  InvE (fst (do_gc d)) acked /\ all_crash (fun i => Good i acked) (pd_img d) (snd (do_gc d)).
+Proof. exact gc_preserves_recovery. Qed.
+Print Assumptions C11_gc_preserves_recovery.
